@@ -67,15 +67,13 @@ Done == pc = 6
 Ep(side) == IF side = "d" THEN d ELSE l
 RoleOf(side) == IF side = "d" THEN "dialer" ELSE "listener"
 
-\* the Impl layer produces only outcomes the Prop layer permits (modulo the recorded finding)
-Refines == Done => \A side \in {"d", "l"} : Honest(side) =>
-              (Outcome(Ep(side)) \in Allowed(sc, RoleOf(side)) \/ KF1(sc, Outcome(Ep(side))))
-RefinesStrict == Done => \A side \in {"d", "l"} : Honest(side) => Outcome(Ep(side)) \in Allowed(sc, RoleOf(side))
+\* the Impl layer produces only outcomes the Prop layer permits
+Refines == Done => \A side \in {"d", "l"} : Honest(side) => Outcome(Ep(side)) \in Allowed(sc, RoleOf(side))
 
 \* C01 stated directly over the symbolic state
 Auth == Done => \A side \in {"d", "l"} : (Honest(side) /\ Ep(side).st = "ok") =>
   LET ep == Ep(side)  o == Other(side) IN
-  /\ (ep.peer = IdOf(sc, o) \/ KF1(sc, Outcome(ep)))          \* the remote holds the identity key of P
+  /\ ep.peer = IdOf(sc, o)                                   \* the remote holds the identity key of P
   /\ ep.pl.sig.by = IdOf(sc, o)                               \* ... and signed ...
   /\ ep.pl.sig.over = <<"prefix", StaticOf(sc, o)>>           \* ... the static key of this very session
   /\ ep.rs = StaticOf(sc, o)
